@@ -12,7 +12,7 @@ use serde_json::{json, Value};
 use xml_schema_generator::{Element, Options, SortBy};
 
 const DERIVES: &[&str] = &["Serialize, Deserialize", "", "Debug", "Clone, Debug, PartialEq, serde::Deserialize", "  spaced ,Odd  ", "Debug, Clone, Debug, PartialEq", "Debug,Clone", " ", "Clone, Debug, Default, Eq, Hash, Ord, PartialEq, PartialOrd, serde::Serialize, serde::Deserialize, SomeOtherCrate::WithAVeryLongName"];
-const PREFIXES: &[&str] = &["@", "", "attr_", "@@", "a"];
+const PREFIXES: &[&str] = &["@", "", "attr_", "@@", "a", "a_", "ns_"];
 const TEXTS: &[&str] = &["$text", "$value", "text", "#text"];
 
 fn opts(derive: &str, prefix: &str, text: &str, sorted: bool) -> Options {
@@ -153,6 +153,22 @@ pub fn judge(docs: &[&DocEntry], el: &Element<String>, rank: u64) -> (Vec<Violat
                                 out.push(mk(class, msg, (derive, prefix, text, sorted)));
                             }
                         }
+                    }
+                }
+            }
+        }
+        // the derive() builder applied to arbitrary options changes the derive string and nothing else
+        for prefix in PREFIXES {
+            for text in TEXTS {
+                for derive in DERIVES.iter().take(3) {
+                    let built = opts("Other", prefix, text, sorted).derive(derive);
+                    let want = opts(derive, prefix, text, sorted);
+                    let same = built.text_identifier == want.text_identifier
+                        && built.attribute_prefix == want.attribute_prefix
+                        && built.derive == want.derive
+                        && matches!((&built.sort, &want.sort), (SortBy::XmlName, SortBy::XmlName) | (SortBy::Unsorted, SortBy::Unsorted));
+                    if !same {
+                        out.push(mk("builder", format!("Options {{ .. }}.derive({:?}) changes more than the derive string: text identifier {:?}, prefix {:?}, sort by name {}", derive, built.text_identifier, built.attribute_prefix, matches!(built.sort, SortBy::XmlName)), (derive, prefix, text, sorted)));
                     }
                 }
             }
